@@ -52,28 +52,61 @@ func vPadLen(shape []int, layout string) int {
 // vMkFrom builds a tensor of the given shape and layout holding `want` (row-major logical order) over engine e and
 // returns it together with its whole backing array.
 func vMkFrom[T vScalar](want, pad []T, shape []int, layout string, e Engine) (*Dense, []T) {
+	return vMkFromM[T](want, pad, nil, nil, shape, layout, e)
+}
+
+// vMkFromM is vMkFrom with an optional mask (mwant in logical order, mpad for the cells outside a view's window): the
+// mask array is laid out exactly like the data array and handed to WithBacking.
+func vMkFromM[T vScalar](want, pad []T, mwant, mpad []bool, shape []int, layout string, e Engine) (*Dense, []T) {
 	n := vProd(shape)
 	rank := len(shape)
 	eo := vEngOpts(e)
+	back := func(b []T, mb []bool) ConsOpt {
+		if mwant == nil {
+			return WithBacking(b)
+		}
+		return WithBacking(b, mb)
+	}
 	if rank == 0 {
 		b := make([]T, 1)
 		b[0] = want[0]
-		return New(append([]ConsOpt{WithShape(), WithBacking(b)}, eo...)...), b
+		var mb []bool
+		if mwant != nil {
+			mb = []bool{mwant[0]}
+		}
+		return New(append([]ConsOpt{WithShape(), back(b, mb)}, eo...)...), b
 	}
 	switch layout {
 	case "C":
 		b := make([]T, n)
 		copy(b, want)
-		return New(append([]ConsOpt{WithShape(shape...), WithBacking(b)}, eo...)...), b
+		var mb []bool
+		if mwant != nil {
+			mb = make([]bool, n)
+			copy(mb, mwant)
+		}
+		return New(append([]ConsOpt{WithShape(shape...), back(b, mb)}, eo...)...), b
 	case "F":
 		b := make([]T, n)
-		vForCoords(shape, func(c []int) { b[vColRank(shape, c)] = want[vRowRank(shape, c)] })
-		return New(append([]ConsOpt{WithShape(shape...), WithBacking(b), AsFortran(nil)}, eo...)...), b
+		mb := make([]bool, n)
+		vForCoords(shape, func(c []int) {
+			b[vColRank(shape, c)] = want[vRowRank(shape, c)]
+			if mwant != nil {
+				mb[vColRank(shape, c)] = mwant[vRowRank(shape, c)]
+			}
+		})
+		return New(append([]ConsOpt{WithShape(shape...), back(b, mb), AsFortran(nil)}, eo...)...), b
 	case "T":
 		ps := vReverseInts(shape)
 		b := make([]T, n)
-		vForCoords(shape, func(c []int) { b[vRowRank(ps, vReverseInts(c))] = want[vRowRank(shape, c)] })
-		t := New(append([]ConsOpt{WithShape(ps...), WithBacking(b)}, eo...)...)
+		mb := make([]bool, n)
+		vForCoords(shape, func(c []int) {
+			b[vRowRank(ps, vReverseInts(c))] = want[vRowRank(shape, c)]
+			if mwant != nil {
+				mb[vRowRank(ps, vReverseInts(c))] = mwant[vRowRank(shape, c)]
+			}
+		})
+		t := New(append([]ConsOpt{WithShape(ps...), back(b, mb)}, eo...)...)
 		if rank >= 2 {
 			if err := t.T(); err != nil {
 				panic("vMkFrom: T failed")
@@ -93,6 +126,8 @@ func vMkFrom[T vScalar](want, pad []T, shape []int, layout string, e Engine) (*D
 		}
 		b := make([]T, vProd(ps))
 		copy(b, pad)
+		mb := make([]bool, vProd(ps))
+		copy(mb, mpad)
 		vForCoords(shape, func(c []int) {
 			pc := vCopyInts(c)
 			if layout == "SS" {
@@ -101,8 +136,11 @@ func vMkFrom[T vScalar](want, pad []T, shape []int, layout string, e Engine) (*D
 				pc[last] = c[last] + 1
 			}
 			b[vRowRank(ps, pc)] = want[vRowRank(shape, c)]
+			if mwant != nil {
+				mb[vRowRank(ps, pc)] = mwant[vRowRank(shape, c)]
+			}
 		})
-		p := New(append([]ConsOpt{WithShape(ps...), WithBacking(b)}, eo...)...)
+		p := New(append([]ConsOpt{WithShape(ps...), back(b, mb)}, eo...)...)
 		sls := make([]Slice, rank)
 		sls[last] = sl
 		v, err := p.Slice(sls...)
